@@ -31,7 +31,7 @@ type txnCfg struct {
 	Batch    bool  `json:"batch,omitempty"` // WriteBatchWait > 0: concurrent commits share a commit batch
 }
 
-// txnOp: kind in begin|get|set|del|commit|commitwith|commitbatch|discard|close|reopen|failwal|dump
+// txnOp: kind in begin|get|set|setexp|del|commit|commitwith|commitbatch|discard|close|reopen|failwal|dump
 type txnOp struct {
 	Kind   string `json:"k"`
 	ID     int    `json:"id,omitempty"`
@@ -159,7 +159,7 @@ func dumpKey(db *NoKV.DB, key []byte) string {
 			items = append(items, fmt.Sprintf("(%d, V \"ee\")", v)) // unreadable: never equal to a written value
 		case e.Version != v:
 			items = append(items, fmt.Sprintf("(%d, V \"ef\")", v))
-		case e.Meta&kv.BitDelete != 0:
+		case e.Meta&kv.BitDelete != 0 || (e.ExpiresAt != 0 && e.ExpiresAt <= uint64(time.Now().Unix())):
 			items = append(items, fmt.Sprintf("(%d, None)", v))
 		default:
 			items = append(items, fmt.Sprintf("(%d, V %s)", v, hexs(e.Value)))
@@ -227,6 +227,14 @@ func execTxn(c *corr.Ctx, d txnDesc) corr.Case {
 			err := txns[o.ID].Set(key, []byte(o.Val))
 			ob = classifyTxnErr(err)
 			term = fmt.Sprintf("S %d %s %s %s", o.ID, hexs(key), hexs([]byte(o.Val)), ob)
+		case "setexp":
+			// a value written with an expiry that has already passed: readers get ErrKeyNotFound, exactly as
+			// for a tombstone; the model (which has no clock) treats it as a delete
+			e := kv.NewEntry(key, []byte(o.Val))
+			e.ExpiresAt = 1
+			err := txns[o.ID].SetEntry(e)
+			ob = classifyTxnErr(err)
+			term = fmt.Sprintf("D %d %s %s", o.ID, hexs(key), ob)
 		case "del":
 			err := txns[o.ID].Delete(key)
 			ob = classifyTxnErr(err)
@@ -570,6 +578,11 @@ func runTxn(c *corr.Ctx) error {
 	for i := 0; i < n && hungCases < 4; i++ {
 		c.Emit(execTxn(c, genTxn(c.Rng, c.Prop)))
 	}
+	// reads of deleted / expired / absent keys inside the conflict window
+	for i, m := 0, c.Scale(40, 1500); i < m && hungCases < 4; i++ {
+		c.Count("dead_key_read_scenarios")
+		c.Emit(execTxn(c, genDeadKeyRead(c.Rng)))
+	}
 	// conflict-history pruning around a live reader
 	for i, m := 0, c.Scale(40, 1500); i < m && hungCases < 4; i++ {
 		c.Count("history_prune_scenarios")
@@ -606,7 +619,84 @@ func staleReaderScenarios() []txnDesc {
 		o("discard", 3, 0, ""),
 		o("begin", 2, 0, ""), o("set", 2, 1, "vC"), o("commit", 2, 0, ""),
 		o("set", 1, 0, "vR"), o("commit", 1, 0, "")}
-	return []txnDesc{{Cfg: cfg, Ops: append(a, dumps...)}, {Cfg: cfg, Ops: append(b, dumps...)}, {Cfg: cfg, Ops: append(p, dumps...)}}
+	// a key whose newest visible version is a tombstone (q) / an expired value (e) is read by 1 (not
+	// found), overwritten by 2 inside the conflict window, then written by 1: a conflict
+	q := []txnOp{o("begin", 0, 0, ""), o("set", 0, 0, "v0"), o("commit", 0, 0, ""),
+		o("begin", 0, 0, ""), o("del", 0, 0, ""), o("commit", 0, 0, ""),
+		o("begin", 1, 0, ""), o("get", 1, 0, ""),
+		o("begin", 2, 0, ""), o("set", 2, 0, "v2"), o("commit", 2, 0, ""),
+		o("set", 1, 0, "v1"), o("commit", 1, 0, "")}
+	e := []txnOp{o("begin", 0, 0, ""), o("setexp", 0, 0, "old"), o("commit", 0, 0, ""),
+		o("begin", 1, 0, ""), o("get", 1, 0, ""),
+		o("begin", 2, 0, ""), o("set", 2, 0, "v2"), o("commit", 2, 0, ""),
+		o("set", 1, 1, "v1"), o("commit", 1, 0, "")}
+	return []txnDesc{{Cfg: cfg, Ops: append(a, dumps...)}, {Cfg: cfg, Ops: append(b, dumps...)}, {Cfg: cfg, Ops: append(p, dumps...)},
+		{Cfg: cfg, Ops: append(q, dumps...)}, {Cfg: cfg, Ops: append(e, dumps...)}}
+}
+
+// genDeadKeyRead: keys that are deleted or expired (or never written) before the transactions under test
+// start; one transaction reads some of them (ErrKeyNotFound) and other keys, a second one commits writes
+// inside the conflict window, the first one writes and commits.
+func genDeadKeyRead(r *rand.Rand) txnDesc {
+	d := txnDesc{Cfg: txnCfg{Detect: r.Intn(6) != 0, MaxCount: 64, MaxSize: 1 << 20, VThr: 1024}}
+	o := func(k string, id, key int, v string) {
+		d.Ops = append(d.Ops, txnOp{Kind: k, ID: id, Update: true, Key: key, Val: v})
+	}
+	valc := 0
+	val := func() string { valc++; return fmt.Sprintf("d%d", valc) }
+	// history: every key is live, deleted, expired or absent
+	for key := range txnKeys {
+		switch r.Intn(4) {
+		case 0:
+			o("begin", 0, 0, "")
+			o("set", 0, key, val())
+			o("commit", 0, 0, "")
+		case 1:
+			o("begin", 0, 0, "")
+			o("set", 0, key, val())
+			o("commit", 0, 0, "")
+			o("begin", 0, 0, "")
+			o("del", 0, key, "")
+			o("commit", 0, 0, "")
+		case 2:
+			o("begin", 0, 0, "")
+			o("setexp", 0, key, val())
+			o("commit", 0, 0, "")
+		}
+	}
+	o("begin", 1, 0, "")
+	nreads := 1 + r.Intn(3)
+	var read []int
+	for i := 0; i < nreads; i++ {
+		k := r.Intn(len(txnKeys))
+		read = append(read, k)
+		o("get", 1, k, "")
+	}
+	for i, m := 0, 1+r.Intn(2); i < m; i++ {
+		k := r.Intn(len(txnKeys))
+		if r.Intn(3) != 0 {
+			k = read[r.Intn(len(read))]
+		}
+		o("begin", 2, 0, "")
+		switch r.Intn(4) {
+		case 0:
+			o("del", 2, k, "")
+		case 1:
+			o("setexp", 2, k, val())
+		default:
+			o("set", 2, k, val())
+		}
+		o("commit", 2, 0, "")
+	}
+	if r.Intn(4) == 0 {
+		o("get", 1, read[0], "") // repeatable
+	}
+	o("set", 1, r.Intn(len(txnKeys)), val())
+	o("commit", 1, 0, "")
+	for key := range txnKeys {
+		d.Ops = append(d.Ops, txnOp{Kind: "dump", Key: key})
+	}
+	return d
 }
 
 // genHistoryPrune: random variants of the scenario above (which keys, how many overwrites and
